@@ -1069,7 +1069,7 @@ pub fn push_level(v: &mut Vec<Box<dyn ReadSide>>, b: Box<dyn ReadSide>)
         pl.replace('self . stack . push (', 'push_level(&mut self.stack, ', 'T2-rebind')
     pl.contract(ensures=[
         ('C13:a-new-level-is-appended-at-the-end-of-the-search-list', APPENDED),
-        ('C13:the-new-level-is-the-plain-directory-at-that-path',
+        ('C13 C11:the-new-level-is-the-plain-directory-at-that-path',
          'forall|links: Map<PathV, InodeId>, key: Key| #[trigger] r.stack@.last().lookup(links, key) == plain_lookup(links, pv(path), str_bytes(key.name))'),
     ])
     pl.body_start('broadcast use group_asref;\n        let ghost s0 = self.stack@;')
@@ -1082,7 +1082,7 @@ pub fn push_level(v: &mut Vec<Box<dyn ReadSide>>, b: Box<dyn ReadSide>)
         sh_.replace('self . stack . push (', 'push_level(&mut self.stack, ', 'T2-rebind')
     sh_.contract(ensures=[
         ('C13:a-new-level-is-appended-at-the-end-of-the-search-list', APPENDED),
-        ('C13 C12:the-new-level-is-the-sharded-directory-at-that-path',
+        ('C13 C12 C11:the-new-level-is-the-sharded-directory-at-that-path',
          'forall|links: Map<PathV, InodeId>, key: Key| #[trigger] r.stack@.last().lookup(links, key) == sharded_lookup(links, pv(path), if num_shards < 2 { 2usize } else { num_shards }, key)'),
     ])
     sh_.body_start('broadcast use group_asref;\n        let ghost s0 = self.stack@;')
@@ -1141,7 +1141,7 @@ pub fn set_writer(o: &mut Option<Arc<dyn FullCache>>, a: Arc<dyn FullCache>)
         m.replace('path : impl AsRef < Path >', 'path: &Path', 'T11-into-identity')
         ens = [('C13:a-new-read-only-level-is-appended-at-the-end-of-the-search-list', RD_APP), ('C14', SAME_REST)]
         if extra:
-            ens.append(('C13 C12:the-new-level-looks-up-that-directory', extra))
+            ens.append(('C13 C12 C11:the-new-level-looks-up-that-directory', extra))
         m.contract(ensures=ens)
     for name, extra in (('plain_writer', 'forall|links: Map<PathV, InodeId>, key: Key| #[trigger] r.write_side.unwrap().lookup(links, key) == plain_lookup(links, pv(path), str_bytes(key.name))'),
                         ('sharded_writer', 'forall|links: Map<PathV, InodeId>, key: Key| #[trigger] r.write_side.unwrap().lookup(links, key) == sharded_lookup(links, pv(path), if num_shards < 2 { 2usize } else { num_shards }, key)'),
@@ -1157,7 +1157,7 @@ pub fn set_writer(o: &mut Option<Arc<dyn FullCache>>, a: Arc<dyn FullCache>)
         ens = [('C13:the-write-cache-is-replaced-and-the-search-list-is-untouched', 'r.write_side.is_some() && r.write_side.unwrap().level_wf() && r.read_side.stack == old(self).read_side.stack'),
                ('C14', SAME_REST)]
         if extra:
-            ens.append(('C13 C12:the-write-cache-is-that-directory', extra))
+            ens.append(('C13 C12 C11:the-write-cache-is-that-directory', extra))
         m.contract(ensures=ens)
     KEEPS = 'r.write_side == old(self).write_side && r.read_side.stack == old(self).read_side.stack'
     a = u.under_contract(ic.sub(['fn arc_consistency_checker']), ['C14'])
